@@ -156,3 +156,30 @@ Definition propose_landing_spec (tr : traj) (descent thr : fnum) : res landing_a
     else Ok (landing_of qsub qadd end_alt_exact segs d (if Qltb th 0 then 0%Q else th))
   | _, _ => Ok (LandAtMs total)
   end.
+
+(** ---- bounding box (sb_trajectory_get_axis_aligned_bounding_box) as certified
+    enclosures: for each axis ((min_lo, min_hi), (max_lo, max_hi)) with
+    min_lo <= true minimum <= min_hi and max_lo <= true maximum <= max_hi ---- *)
+Definition ext_depth : nat := 14.
+
+Definition seg_axis_bounds (pts : list Q) : (Q * Q) * (Q * Q) :=
+  let cs := make_bezier QOps 1%Q pts in
+  (poly_min ext_depth cs 0 1, poly_max ext_depth cs 0 1).
+
+Definition join_bounds (a b : (Q * Q) * (Q * Q)) : (Q * Q) * (Q * Q) :=
+  let '((al, au), (bl, bu)) := a in
+  let '((cl, cu), (dl, du)) := b in
+  ((Qmin' al cl, Qmin' au cu), (Qmax' bl dl, Qmax' bu du)).
+
+Fixpoint axis_bounds (sel : segment -> list Q) (segs : list (cursor * segment)) : option ((Q * Q) * (Q * Q)) :=
+  match segs with
+  | [] => None
+  | (_, s) :: rest =>
+    match axis_bounds sel rest with
+    | None => Some (seg_axis_bounds (sel s))
+    | Some b => Some (join_bounds (seg_axis_bounds (sel s)) b)
+    end
+  end.
+
+Definition max_degree (sel : segment -> list Q) (segs : list (cursor * segment)) : nat :=
+  fold_left (fun a cs => Nat.max a (length (sel (snd cs)) - 1)) segs 0%nat.
